@@ -226,7 +226,7 @@ func TestReplay(t *testing.T) {
 			t.Fatal(err)
 		}
 	}()
-	k := &Checker{Rep: rep}
+	k := &Checker{Rep: rep, Exact: true}
 	pl := &pools{m: map[string][][]byte{}}
 	var infra atomic.Value
 	pc, pt, pcs := EntryByName("ParseCertificate"), EntryByName("ParseTBSCertificate"), EntryByName("ParseCertificates")
